@@ -168,6 +168,44 @@ def seq_stage(ctx, impl, n, prefix="seq"):
     return n_v
 
 
+def q_stage(ctx, impl, n):
+    """programs with non-classical instructions on a recording subclass of the real Executor: the event trace
+    (gates with operand values, scripted measurements, qalloc/qfree, returns) of the assembled program must be
+    the trace of the direct interpretation of the source (AsmSemQ)"""
+    rng = ctx.rng
+    per = {f: [] for f in ac.FLAVS}
+    stats, nev = {}, 0
+    for _ in range(n):
+        fname = rng.choice(ac.FLAVS)
+        prog = ag.gen_q_prog(rng, impl.ct["flavours"][fname]["rows"])
+        lines = None
+        if rng.random() < 0.4:
+            lines = ["# NETQASM 1.0", "# APPID 0"] + ac.render_text(rng, prog)
+            out, sub = impl.assemble_text(fname, "\n".join(lines) + "\n")
+        else:
+            out, sub = impl.assemble_ir(fname, prog)
+        script = [rng.randint(0, 1) for _ in range(rng.randint(0, 4))]
+        obs = impl.execute_rec(sub, BOUND, script) if sub is not None else None
+        if obs is not None:
+            kk = ["halted", "fault", "step-bound", "blocked-in-wait"][obs["kind"]]
+            stats[kk] = stats.get(kk, 0) + 1
+            nev += len(obs["trace"])
+        per[fname].append(dict(flavour=fname, lines=lines, prog=prog, out=out, cap=5, script=script, fuel=BOUND, obs=obs))
+        ctx.note_case(("q", fname, json.dumps(lines if lines is not None else prog), tuple(script)), nontrivial=True)
+    bad = ac.run_sharded(ctx, ac.write_qcase_file, per, 100, "qcases")
+    ctx.coverage["event_semantics"] = dict(programs=n, executions=stats, events=nev, differences=len(bad))
+    for (f, i), code in sorted(bad.items()):
+        c = per[f][i]
+        rd = dict(flavour=f, measurement_script=c["script"], implementation_result=c["out"], recording_executor=c["obs"])
+        rd["lines" if c["lines"] is not None else "prog"] = c["lines"] if c["lines"] is not None else c["prog"]
+        if code & 2:
+            ctx.violation("the assembled program on the recording Executor does not show the events / state of the source "
+                          "program (gate trace with operand values, measurements, qalloc/qfree, returns, registers, memory)",
+                          rd, key=None)
+        else:
+            ctx.broken.append(f"correspondence AsmSemQ vs recording Executor (code {code}): {json.dumps(rd)[:600]}")
+
+
 def run_impl(impl, c):
     """fill c['out'], c['obs'] from the real assembler / executor"""
     if c["lines"] is not None:
@@ -275,6 +313,7 @@ def run(ctx):
                       "start states")
     report(ctx, differing)
     seq_stage(ctx, impl, 150 if quick else 2000)
+    q_stage(ctx, impl, 150 if quick else 3000)
     front_stage(ctx, impl, cases, quick)
     if ctx.broken and not ctx.violations:
         search(ctx, impl)
